@@ -916,3 +916,37 @@ MUTANTS += [
  dict(name='c11-benign-qualifykey-pointer-refactor', prop='C11', benign=True, expect='', patch='selftest/fixes/benign-qualifykey-pointer-refactor.patch'),
  dict(name='c12-benign-qualifykey-pointer-refactor', prop='C12', benign=True, expect='', patch='selftest/fixes/benign-qualifykey-pointer-refactor.patch'),
 ]
+# ---- R-LANES, R-WORDALG/c++ and round-7 seeds
+MUTANTS += [
+ dict(name='seed-C15-freeslot-idx-swap-precedence', prop='C15', patch='seeded/C15-freeslot-index-swap-helper-precedence/patch.diff', expect='R-LANES'),
+ dict(name='c15-benign-freeslot-idx-memcpy-swap', prop='C15', benign=True, expect='', patch='selftest/fixes/benign-freeslot-idx-memcpy-swap.patch'),
+ dict(name='c17-benign-freeslot-idx-memcpy-swap', prop='C17', benign=True, expect='', patch='selftest/fixes/benign-freeslot-idx-memcpy-swap.patch'),
+ dict(name='c09-write-big-endian-off-by-one', prop='C09', expect='R-LANES',
+      edits=[('include/core/bigint.hpp', '                buffer[i] = this->bytes[byte_length - i - 1];', '                buffer[i] = this->bytes[byte_length - i - 1 - (i == 5)];')]),
+ dict(name='seed-C02-portable-redc-meta-carry-narrow', prop='C02', patch='seeded/C02-portable-redc-meta-carry-narrowed/patch.diff', expect='VIOLATION property=C02'),
+ dict(name='seed-C03-portable-add-carry-folded-into-b', prop='C03', patch='seeded/C03-portable-add-carry-folded-into-addend/patch.diff', expect='R-WORDALG/c++'),
+ dict(name='seed-C11-resample-bsig-stale', prop='C11', patch='seeded/C11-resamplekey-bsig-not-rerandomised/patch.diff', expect='R-SCHEME'),
+ dict(name='seed-C18-negate-zero-test-after-write', prop='C18', patch='seeded/C18-negate-zero-test-after-write/patch.diff', expect='VIOLATION property=C18'),
+ dict(name='seed-C17-decode-helper-wire-flag', prop='C17', patch='seeded/C17-decode-helper-trusts-wire-flag/patch.diff', expect='VIOLATION property=C17'),
+ dict(name='c02-cpp-add-carry-le-in-no-carry-arm', prop='C02', expect='R-WORDALG/c++',
+      edits=[('include/core/bigint.hpp', '                    if (carry == 0) {\n                        carry = (this->dwords[i] < b.dwords[i]) ? 1 : 0;', '                    if (carry == 0) {\n                        carry = (this->dwords[i] <= b.dwords[i]) ? 1 : 0;')]),
+ dict(name='c02-cpp-fpadd-compare-strict', prop='C02', expect='R-WORDALG/c++',
+      edits=[('include/core/fp.hpp', '            bool carry = this->val.add(a.val, b.val);\n            if (BigInt<bits>::compare(this->val, p) >= 0 || carry) {', '            bool carry = this->val.add(a.val, b.val);\n            if (BigInt<bits>::compare(this->val, p) > 0 || carry) {')]),
+ dict(name='c02-cpp-square-diagonal-carry-dropped', prop='C02', expect='R-WORDALG/c++',
+      edits=[('include/core/bigint.hpp', '                new_word = ((dword_t) this->words[(i << 1) + 1]) + ((dword_t) carry);\n                this->words[(i << 1) + 1] = (word_t) new_word;\n                carry = (word_t) (new_word >> (sizeof(word_t) * 8));',
+              '                new_word = ((dword_t) this->words[(i << 1) + 1]) + ((dword_t) carry);\n                this->words[(i << 1) + 1] = (word_t) new_word;\n                carry = 0;')]),
+ dict(name='c02-cpp-compare-returns-swapped-at-low-word', prop='C02', expect='R-WORDALG/c++',
+      edits=[('include/core/bigint.hpp', '            for (int i = word_length - 1; i != -1; i--) {\n                if (a.words[i] < b.words[i]) {\n                    return -1;\n                }',
+              '            for (int i = word_length - 1; i != -1; i--) {\n                if (a.words[i] < b.words[i]) {\n                    return (i == 0) ? 1 : -1;\n                }')]),
+]
+MUTANTS += [
+ dict(name='seed-C06-frobenius-running-base-skipped', prop='C06', patch='seeded/C06-frobenius-tables-running-base-skips-advance/patch.diff', expect='R-POLY/tables'),
+ dict(name='c06-benign-frobenius-single-running-base', prop='C06', benign=True, expect='', patch='selftest/fixes/benign-frobenius-single-running-base.patch'),
+ dict(name='seed-C09-encode-sign-helper-swapped-fallback', prop='C09', patch='seeded/C09-encode-sign-helper-swapped-fallback/patch.diff', expect='sign|'),
+ dict(name='seed-C13-verify-shared-inversion-identity', prop='C13', patch='seeded/C13-verify-shared-inversion-identity-a1/patch.diff', expect='VIOLATION property=C13'),
+ dict(name='seed-C14-attribute-term-short-id-fastpath', prop='C14', patch='seeded/C14-attribute-term-short-id-fastpath/patch.diff', expect='VIOLATION property=C14'),
+ dict(name='c06-fill-table-adds-base-not-double', prop='C06', expect='tables|WnafTable',
+      edits=[('include/bls12_381/wnaf.hpp', '                table[i].add(table[i - 1], two_base);', '                table[i].add(table[i - 1], table[0]);')]),
+ dict(name='c06-endomorphism-table-from-endo-of-a', prop='C06', expect='tables|G1::multiply_endomorphism',
+      edits=[('src/bls12_381/curve_fast_multiply.cpp', '        WnafTable<G1, wnaf_window_size> wt;\n        wt.fill_table(a);', '        WnafTable<G1, wnaf_window_size> wt;\n        G1 ea;\n        ea.endomorphism(a);\n        wt.fill_table(ea);')]),
+]
